@@ -173,11 +173,15 @@ def c07(ctx):
 ALL_BAD = ["dup", "badvalue", "forged", "othersession", "othermsg", "badindex", "resign"]
 
 
+ALL_MSGS = ["nil", "empty", "b1", "text", "b64", "b4096"]
+
+
 def dss_consts(n, tset=None, maxbad=2, kinds=ALL_BAD, badfrom=None, joint=False, parts=(), focus=None, selfrecv=True, L=0,
-               emit="none"):
+               emit="none", msgs=("text",)):
     return {"N": n, "TSet": list(tset or range(1, n + 1)), "MaxBad": maxbad, "BadKinds": list(kinds),
             "BadFrom": list(badfrom if badfrom is not None else range(n)), "Joint": joint, "JointParts": list(parts),
-            "FocusSet": list(focus if focus is not None else range(n)), "SelfRecv": selfrecv, "L": L, "EmitMode": emit}
+            "FocusSet": list(focus if focus is not None else range(n)), "MsgSet": list(msgs), "SelfRecv": selfrecv, "L": L,
+            "EmitMode": emit}
 
 
 DSS_INV = ["TypeOK", "OnlyValidContribute", "NoSigBelowT", "AllSignaturesEqual"]
@@ -191,11 +195,12 @@ def dss_mc(name, n, parts, maxbad=2):
     return job
 
 
-def dss_gen(name, n, maxper, mode="paths", maxbad=1, badfrom=None, simulate=None, L=40, tset=None, focus=None):
+def dss_gen(name, n, maxper, mode="paths", maxbad=1, badfrom=None, simulate=None, L=40, tset=None, focus=None,
+            msgs=("text",), kinds=ALL_BAD):
     """behaviours of ONE participant's object: mode paths = every maximal behaviour, tour = transition tour, walk = simulate"""
     def job(ctx):
         out = os.path.join(ctx.tmp, name + ".ndjson")
-        consts = dss_consts(n, tset=tset, maxbad=maxbad, badfrom=badfrom, focus=focus, L=L,
+        consts = dss_consts(n, tset=tset, maxbad=maxbad, badfrom=badfrom, focus=focus, L=L, msgs=msgs, kinds=kinds,
                             emit="none" if mode == "tour" else "done")
         if mode == "tour":
             consts["EmitMode"] = "tour"   # hist is recorded, nothing printed by Emit; EmitEdge prints prefix + edge
@@ -282,8 +287,12 @@ def c12(ctx):
         # spec -> code: every maximal behaviour of one object (all t, all participants, all arrival orders of all
         # subsets, own partial before/after signing, injected bad partials of every kind from every signer)
         dss_gen("C12_paths_n3", 3, 2500 if q else 0, maxbad=1),
+        # every message class (nil, empty, 1 byte, text, 64, 4096 bytes) x every "other message" taken relative to it
+        # (empty / 1 byte, prefix, extension, last byte flipped): sessions set up, completed and verified for each class
+        dss_gen("C12_msgs_n3", 3, 2500 if q else 0, maxbad=1, tset=(2,) if q else (1, 2, 3), msgs=ALL_MSGS,
+                kinds=("othermsg",)),
         dss_gen("C12_tour_n4", 4, 1500 if q else 8000, mode="tour", maxbad=2),
-        dss_gen("C12_walk_n7", 7, 150 if q else 2500, maxbad=3, simulate="num=%d" % (60 if q else 1200), L=13),
+        dss_gen("C12_walk_n7", 7, 150 if q else 2500, maxbad=3, simulate="num=%d" % (60 if q else 1200), L=13, msgs=ALL_MSGS),
         dss_traces,
     ]
     if not q:
@@ -291,8 +300,8 @@ def c12(ctx):
         # two injected bad partials at every pair of positions (t = 2, participants 0 and 2, bad signers 1 and 2)
         jobs.insert(4, dss_gen("C12_paths_n3_bad2", 3, 12000, maxbad=2, tset=(2,), focus=(0, 2), badfrom=(1, 2)))
         jobs.insert(5, dss_gen("C12_paths_n4", 4, 12000, maxbad=1, badfrom=(0, 3)))
-        jobs.insert(7, dss_gen("C12_walk_n5", 5, 2500, maxbad=3, simulate="num=1200", L=11))
-        jobs.insert(8, dss_gen("C12_walk_n6", 6, 2500, maxbad=3, simulate="num=1200", L=12))
+        jobs.insert(7, dss_gen("C12_walk_n5", 5, 2500, maxbad=3, simulate="num=1200", L=11, msgs=ALL_MSGS))
+        jobs.insert(8, dss_gen("C12_walk_n6", 6, 2500, maxbad=3, simulate="num=1200", L=12, msgs=ALL_MSGS))
     run_jobs(ctx, jobs, parallel=3)
     return ctx.finish(
         "model_checking",
@@ -300,6 +309,8 @@ def c12(ctx):
         "OnlyValidContribute / NoSigBelowT / AllSignaturesEqual (threshold algebra over Z_11 through module Shamir) / RejectIsNoop; "
         "replay: behaviour = call sequence at one real dss.DSS object (PartialSig, ProcessPartialSig of kinds valid / duplicate / "
         "bad value re-signed / forged signer signature / other session / other message / index >= n, own partial before or after "
+        "signing; message classes nil, empty, 1 byte, text, 64 B, 4096 B with the other message taken relative to it: empty / 1 byte, "
+        "prefix, extension, flipped last byte; an honest session that cannot be set up is a violation; "
         "signing), every maximal behaviour for n=3, transition tour for n=4, random walks n=5..7, x keys from pedersen DKG, rabin DKG "
         "and a Shamir dealer; after EVERY step: result class, EnoughPartialSig, Signature ok/refused, bytes equal at all combiners "
         "of the session, dss.Verify, eddsa.Verify, schnorr.Verify, crypto/ed25519.Verify, rejection under another message; final phase "
